@@ -3,10 +3,11 @@ import numpy as np
 from ai_edge_litert import interpreter as tfl
 
 
-def make(content, preserve=True):
+def make(content, preserve=True, reference=False):
   return tfl.Interpreter(
       model_content=bytes(content),
-      experimental_op_resolver_type=tfl.OpResolverType.BUILTIN_WITHOUT_DEFAULT_DELEGATES,
+      experimental_op_resolver_type=(tfl.OpResolverType.BUILTIN_REF if reference
+                                     else tfl.OpResolverType.BUILTIN_WITHOUT_DEFAULT_DELEGATES),
       experimental_preserve_all_tensors=preserve)
 
 
